@@ -27,9 +27,10 @@ func (m *PanMap) Inspect() string {
 	var out bytes.Buffer
 	pairs := []Pair{}
 
-	// NOTE: refer map because range cannot treat map pointer
-	for _, p := range *m.Pairs {
-		pairs = append(pairs, p)
+	// NOTE: refer HashKeys to keep order
+	// (keys inspected the same, like 1.0000001 and 1.0000002, are not reordered by sort)
+	for _, h := range *m.HashKeys {
+		pairs = append(pairs, (*m.Pairs)[h])
 	}
 
 	out.WriteString("%{")
@@ -56,9 +57,10 @@ func (m *PanMap) Repr() string {
 	var out bytes.Buffer
 	pairs := []Pair{}
 
-	// NOTE: refer map because range cannot treat map pointer
-	for _, p := range *m.Pairs {
-		pairs = append(pairs, p)
+	// NOTE: refer HashKeys to keep order
+	// (keys inspected the same, like 1.0000001 and 1.0000002, are not reordered by sort)
+	for _, h := range *m.HashKeys {
+		pairs = append(pairs, (*m.Pairs)[h])
 	}
 
 	out.WriteString("%{")
